@@ -17,7 +17,7 @@ func init() {
 			"R2.1 routing-parameter table: the set of names written unconditionally as __param_<name> labels into every generated static group equals the set the proxy reads (Get) and strips (Del), and URL.Scheme is assigned directly from the scheme parameter; " +
 			"R2.2 invalid-label-name escape: the prefix the discovery side prepends and the prefix of the generated labelmap rule are the same constant; the rule is LabelMap with regex prefix+(.+) and replacement $1, set on every job; " +
 			"R2.3 plain http to the proxy, original scheme carried: job.Scheme and the group's __scheme__ label are the constant http (the label written after the target's labels were copied), and the scheme parameter carries the target's own __scheme__ label (default http); " +
-			"R2.4 group shape: one group per assigned target, every label of the target copied unconditionally, __address__ taken from the target's labels, the hash parameter rendered from Target.Hash. " +
+			"R2.5 label precedence on the discovery side: all per-target labels enter the label set, group labels only where the target does not define the label itself (Prometheus' rule); R2.4 group shape: one group per assigned target, every label of the target copied unconditionally, __address__ taken from the target's labels, the hash parameter rendered from Target.Hash. " +
 			"Not decided: everything that depends on label values (relabel evaluation, de-duplication, dropped targets).",
 		Assumptions: []string{"go/types and go/ssa are correct"}})
 }
@@ -108,6 +108,7 @@ func runC02(p *engine.Prog, r *engine.Report) {
 	r.Min("R2.2-invalid-label-escape", 2)
 	r.Min("R2.3-scheme", 2)
 	r.Min("R2.4-group-shape", 1)
+	r.Min("R2.5-label-precedence", 1)
 
 	// ---- the group writer: function building targetgroup.Group from []*target.Target
 	var writer *ssa.Function
@@ -456,6 +457,120 @@ func runC02(p *engine.Prog, r *engine.Report) {
 			}
 		}
 	}
+	// ---- R2.5 per-target labels take precedence over group labels (as in Prometheus' TargetsFromGroup)
+	for _, fn := range p.Funcs {
+		if !engine.InPkg(fn, pkgDisc) {
+			continue
+		}
+		fi := p.Info(fn)
+		for _, in := range allInstrs(fn) {
+			nw, ok := in.(*ssa.Call)
+			if !ok || !engine.CalleeIs(nw.Common(), "github.com/prometheus/prometheus/model/labels", "", "New") {
+				continue
+			}
+			// only the call that turns a discovered group into a label set (argument built in this function)
+			var probs []string
+			var appends []*ssa.Call
+			seen := map[ssa.Value]bool{}
+			var walk func(v ssa.Value)
+			walk = func(v ssa.Value) {
+				if seen[v] {
+					return
+				}
+				seen[v] = true
+				switch x := v.(type) {
+				case *ssa.Phi:
+					for _, e := range x.Edges {
+						walk(e)
+					}
+				case *ssa.Call:
+					if bi, ok := x.Call.Value.(*ssa.Builtin); ok && bi.Name() == "append" {
+						appends = append(appends, x)
+						walk(x.Call.Args[0])
+						return
+					}
+					probs = append(probs, "the label list is produced by "+short(fi.T(x).S)+" (precedence between per-target and group labels cannot be seen)")
+				case *ssa.MakeSlice, *ssa.Const, *ssa.Slice:
+				default:
+					probs = append(probs, "the label list comes from "+short(fi.T(v).S))
+				}
+			}
+			walk(nw.Call.Args[0])
+			if len(appends) == 0 {
+				continue
+			}
+			var targetSet string
+			type contrib struct {
+				app *ssa.Call
+				rng *ssa.Range
+			}
+			var cs []contrib
+			for _, app := range appends {
+				for _, e := range varargElems(app.Call.Args[1]) {
+					u, ok := e.(*ssa.UnOp)
+					if !ok {
+						continue
+					}
+					al, ok := u.X.(*ssa.Alloc)
+					if !ok {
+						continue
+					}
+					// Name: string(range key)
+					for _, rr := range *al.Referrers() {
+						fa, ok := rr.(*ssa.FieldAddr)
+						if !ok || engine.FieldOf(fa).Name() != "Name" {
+							continue
+						}
+						for _, r2 := range *fa.Referrers() {
+							st, ok := r2.(*ssa.Store)
+							if !ok {
+								continue
+							}
+							if ex, ok := unwrapCT(st.Val).(*ssa.Extract); ok {
+								if nx, ok := ex.Tuple.(*ssa.Next); ok {
+									if rg, ok := nx.Iter.(*ssa.Range); ok {
+										cs = append(cs, contrib{app, rg})
+									}
+								}
+							}
+						}
+					}
+				}
+			}
+			if len(cs) < 2 {
+				continue
+			}
+			// the per-target set: ranged map that is an element of a slice field (tg.Targets[i]); the group set: a field (tg.Labels)
+			for _, c0 := range cs {
+				if strings.Contains(fi.T(c0.rng.X).S, "[") {
+					targetSet = fi.T(c0.rng.X).S
+				}
+			}
+			if targetSet == "" {
+				probs = append(probs, "the per-target label set could not be identified")
+			}
+			for _, c0 := range cs {
+				xt := fi.T(c0.rng.X).S
+				if xt == targetSet {
+					// unconditional within its loop
+					if lp := loopOf(fi, c0.app.Block()); lp != nil {
+						for _, pr := range lp.header.Preds {
+							if fi.IsBackEdge(pr, lp.header) && !c0.app.Block().Dominates(pr) {
+								probs = append(probs, "a per-target label can be left out")
+							}
+						}
+					}
+					continue
+				}
+				need := engine.Not(engine.A("has(" + targetSet + "[rk:" + c0.rng.Name() + "])"))
+				if ok, have := fi.Implies(c0.app.Block(), need); !ok {
+					probs = append(probs, "a group label ("+short(xt)+") is added without 'the target does not define this label itself' on the path: "+strings.Join(nonStructural(have), " ∧ "))
+				}
+			}
+			r.Check(len(probs) == 0, "R2.5-label-precedence", "label merge in "+engine.FuncName(fn), "labels.New at "+p.Rel(nw.Pos()), "all per-target labels; group labels only where the target does not define the label itself", strings.Join(probs, "; "))
+		}
+	}
+
 	// discovery side prefixing
 	okPre := false
 	var whyPre string
